@@ -19,6 +19,9 @@ CHECKS = {
  'C02': dict(engine='E1 symex + E2 cbmc', technique='symbolic execution of cmi_hashheap.c over operation histories with symbolic sort keys/keys (z3) + CBMC algebra of the five ordering functions',
              text='Histories of 3-9 enqueues plus 1-2 (thorough 3) operations from the full operation set, each of the five real ordering functions, initial exponents 1-3 across the 2->4->8->16 doublings (thorough 32), automatically issued, colliding candidate and fully symbolic caller keys; shadow map + structural walker after every operation. CBMC shows each ordering function is the documented strict order for all key triples.',
              ref='DESIGN.md section 4 C02', note=E1NOTE + '; page size stubbed to 256; cbmc 6.11 trusted for the algebra part'),
+ 'C03': dict(engine='E3 asm->SMT + E1 symex', technique='bit-precise SMT semantics of the assembled context switch (z3 validity queries over all register/flag/MXCSR/memory contents) + symbolic execution of the coroutine bookkeeping',
+             text='The nasm-assembled switch and trampoline are translated instruction by instruction into z3 terms; round trip (callee-saved registers, MXCSR, user-visible RFLAGS, stack pointer, return address, handed-over value), frame condition and the initial frame written by the real cmi_coroutine_context_init (symbolically executed) are validity queries with no bound on the machine state. Coroutine scripts (start/yield/resume/transfer/exit/return/stop/restart, nested yields, symbolic messages) check message delivery, caller/parent bookkeeping and that locals survive.',
+             ref='DESIGN.md section 4 C03', note='trusted: nasm+objdump disassembly, the hand-written semantics of the 14 instruction forms that occur (any other form fails the check), popf at CPL 3, z3; x87 control word, AVX state, signal mask and stack exhaustion are outside; E1 part: ' + E1NOTE),
  'C04': sim('Scripts combining hold, timers (add/cancel/clear), interrupts, stops, wait-for-process/event, yield/resume and waits on resource, pool, buffer, queues and condition; a ledger of issued notifications decides that every non-success return is exactly one undelivered notification at its instant, that success of hold means start+d, that nothing of a finished wait stays queued, and that nobody is left suspended at quiescence.', 'DESIGN.md section 4 C04'),
  'C05': sim('Acquire/hold/release/preempt scripts of 3-4 processes with symbolic priorities and hold times (0 allowed), waiters that time out, are interrupted or stopped, holders that exit, return or are stopped; shadow owner vs. every successful return and the holder/in-use/available queries after every event.', 'DESIGN.md section 4 C05'),
  'C06': dict(engine='E2 cbmc + E1 symex', technique='CBMC: ordering function = documented lexicographic strict order for all triples; E1: symbolic priorities/arrival instants over waiter scripts',
@@ -32,6 +35,20 @@ CHECKS = {
  'C13': sim('2-3 (thorough 4) condition waiters with symbolic thresholds and priorities, explicit signals after symbolic state changes, forwarded signals from an observed resource through both registration routes, cancel/remove by the public names, timeouts and interrupts of waiters; resumed with success exactly when the predicate was found true at a signal of that instant.', 'DESIGN.md section 4 C13'),
  'C14': sim('All object kinds with recording on: after every event the latest recorded sample must equal the true state (public query) with a time not in the future, sample times non-decreasing, the step function at the end of every instant equals the observed state, and (families with durations chosen from {0,1,2}) the time-weighted mean from cmb_timeseries_summarize equals the integral of the observed trajectory.', 'DESIGN.md section 4 C14'),
 }
+CHECKS.update({
+ 'C15': dict(engine='E2 cbmc + E1 symex', technique='CBMC (z3 back end): equivalence of cmb_random_initialize+sfc64 with an independent reference for all seeds and all prior static state; E1: self-composition of seeded call sequences after different prior histories',
+             text='For every 64-bit seed and every prior value of the generator statics (incl. the flip bit cache) the first 3 raw outputs and the first flips after seeding equal an independently written splitmix64/sfc64 reference; with E1 the same (4, thorough 16 outputs) plus self-composition: a fixed call sequence (raw, flips, uniform, bernoulli) gives identical terms after different prior histories; all mutable statics of the unit are thread-local in the emitted IR.',
+             ref='DESIGN.md section 4 C15', note='trusted: cbmc 6.11 with z3, E1, the reference implementation; samplers with data-dependent branches or ziggurat table look-ups on symbolic draws are outside the symbolic part; hardware seeding outside'),
+ 'C17': dict(engine='E1 symex (reals)', technique='the summary arithmetic executed on symbolic reals and compared with the textbook definitions as polynomial identities (z3 nlsat)',
+             text='0-4 (thorough 5) symbolic samples: count/min/max/mean/central moment sums/variance/skewness/kurtosis equal their definitions after every add; merge(A,B) = summary(A||B) for every split incl. empty parts, both orders, into a third object or either operand; weighted mean exact, zero weights ignored, unit weights = unweighted, scale invariance of the mean (variance/kurtosis: known finding); dataset/timeseries summarize.',
+             ref='DESIGN.md section 4 C17', note='exact reals: rounding, common offsets and extreme magnitudes are outside by construction; sqrt/pow as algebraic roots; ' + E1NOTE),
+ 'C18': dict(engine='E1 symex (reals)', technique='symbolic execution of the sort/median/histogram/ACF code over symbolic samples; comparisons fork into the weak orders of the data',
+             text='1-4 (thorough 5) symbolic samples and durations: sorted output ascending and a permutation with (x,t,w) kept together, copies exact and extendable, median and weighted median against the half-weight definition, five-number summaries (captured fprintf arguments) ordered and in range, histogram totals, ACF[0]=1 and shift/scale invariance, PACF[1]=ACF[1], array growth 1024->1025.',
+             ref='DESIGN.md section 4 C18', note='histogram inputs from candidate sets; output formatting outside; ' + E1NOTE),
+ 'C20': dict(engine='E1 symex', technique='symbolic execution of cmi_mempool.c over alloc/free histories with solver-chosen frees; engine-level bounds/liveness checking of every access',
+             text='Histories of 7 (thorough 11) alloc/free operations on dynamic and statically initialised pools for object sizes 8/16/24/64, plus bulk populations of 131-530 (thorough 1610) live stamped objects crossing the chunk-list growth at 64 and 128 chunks: alignment, disjointness, contents intact, no object handed out twice, cleanup.',
+             ref='DESIGN.md section 4 C20', note='page size stubbed to 64 bytes; realloc always moves; ' + E1NOTE),
+})
 NA = {}
 DEFAULT_NA = 'check under construction in this session; see DESIGN.md'
 checks = []
@@ -60,6 +77,7 @@ m = {
  'engines': [
   {'name': 'E1 symex', 'path': 'lib/symex.py', 'serves_properties': sorted(p for p in CHECKS if 'E1' in CHECKS[p]['engine']),
    'kind_free_text': 'own KLEE-style symbolic executor over clang-14 IR of the real sources, z3 back end, native replay of models'},
+  {'name': 'E3 asm-smt', 'path': 'lib/e3.py', 'serves_properties': ['C03'], 'kind_free_text': 'nasm object -> objdump -> z3 semantics of the instruction forms that occur'},
   {'name': 'E2 cbmc', 'path': 'lib/e2.py', 'serves_properties': sorted(p for p in CHECKS if 'E2' in CHECKS[p]['engine']),
    'kind_free_text': 'CBMC 6.11 on leaf units of the real sources (goto-cc with the release flags), counterexamples replayed natively'},
  ],
